@@ -301,12 +301,12 @@ IT_GUARDED = ('modularity_louvain_und', 'modularity_louvain_und_sign', 'communit
 
 
 def big_sparse_case(r, fn):
-    """131..140 nodes, a few edges among the first and among the LAST eight nodes (indices above 127), every other node
+    """143..150 nodes, a few edges among the first and among the LAST eight nodes (indices above 127), every other node
     isolated (never moved): more than 127 nodes AND more than 127 modules in the result — module vectors / labels held in
     a narrow integer type wrap. Half-integer weights (not integer-valued: the input-representation layer cannot re-store
     the matrix in an integer dtype, whose known arithmetic defects would mask a failure). Too large for the model
     (aggregation is O(n^4)): `_nomodel`, direct oracle only."""
-    n = r.randint(131, 140)
+    n = r.randint(143, 150)         # at most 14 merges among the 16 connected nodes: at least 129 modules
     W = [[0] * n for _ in range(n)]
     desc = {}
     for lo in (0, n - 8):
@@ -503,7 +503,8 @@ def compare_auto(case, auto, levels):
     """model-chosen moves against the accepted moves of the implementation. Returns ('ok' | 'ambiguous' | 'mismatch', text).
     The exact argmax / threshold test and the float one can only differ where the exact decision is within float noise of
     flipping: a divergence is forgiven (fallback: the accepted-move replay) iff some visit since the last agreed move has a
-    margin (gap max-threshold or max-runner-up, exact) below 1e-9 * gain scale."""
+    margin (exact gap max-threshold, or max - best slot with DIFFERENT inputs: slots with identical node-to-module / module
+    sums have bitwise identical float gains and tie identically on both sides) below 1e-9 * gain scale."""
     lv, left, out = auto
     tol = F(1, 10 ** 9) * gain_scale(case)
     impl = [[(int(d['u']), int(d['mb'])) for d in L['moves']] for L in levels]
